@@ -252,6 +252,27 @@ Srv_Desync408 ==
   /\ out' = Append(out, R408) /\ open' = FALSE
   /\ UNCHANGED <<script, sent, idling, idles, cliShut, taken, pos, cur, spc>>
 
+(***************************************************************************)
+(* Humphrey's monitor-event protocol for one connection, as a function of  *)
+(* the model state (code: MonitorConfig.send calls in run / client_handler)*)
+(*   CS  ConnectionSuccess (accept loop)   TPS ThreadPoolProcessStarted    *)
+(*   OK / ERR / TO  one per response written (200 / other / 408)           *)
+(*   KA  KeepAliveRespected after a response that keeps the connection     *)
+(*   CC  ConnectionClosed - only when the loop is left by `break` (a       *)
+(*       response that does not keep, 400, 408), not by `return` (client   *)
+(*       EOF while waiting) and not by a panic                             *)
+(***************************************************************************)
+MonEv(st) == IF st = 200 THEN "OK" ELSE IF st = 408 THEN "TO" ELSE "ERR"
+EndedByBreak == /\ ~open /\ spc # "dead"
+                /\ \/ spc \in {"write", "err400", "desync"}
+                   \/ (Len(out) > 0 /\ out[Len(out)].st = 408)
+RECURSIVE MonBody(_)
+MonBody(i) == IF i > Len(out) THEN <<>>
+              ELSE <<MonEv(out[i].st)>>
+                   \o (IF i < Len(out) \/ ~EndedByBreak THEN <<"KA">> ELSE <<>>)
+                   \o MonBody(i + 1)
+MonExpected == <<"CS", "TPS">> \o MonBody(1) \o (IF EndedByBreak THEN <<"CC">> ELSE <<>>)
+
 ClientStep == \/ \E n \in 1..(Total(script) - sent) : Cli_Send(n)
               \/ Cli_IdleBegin \/ Cli_IdleEnd \/ Cli_Shut
 ServerStep == \/ Srv_ReadFirst \/ Srv_Eof \/ Srv_Timeout408
